@@ -88,7 +88,7 @@ def comprehension(eng, e, st, kind):
         raise Unsupported("async comprehension")
     label = eng.comp_ids.get(id(e))
     has_spec = eng.contract is not None and label in eng.contract.loops
-    if has_spec and kind == "list" and not eng.spec:
+    if has_spec and kind in ("list", "dict") and not eng.spec:
         return as_loop(eng, e, gen, st, label)
     out = []
     for itv, s in eng.ev(gen.iter, st):
@@ -105,9 +105,17 @@ def as_loop(eng, e, gen, st, label):
     loop = ast.parse(src).body[0]
     loop.target = gen.target
     loop.iter = gen.iter
-    app = ast.Expr(ast.Call(func=ast.Attribute(value=ast.Name(id="_acc", ctx=ast.Load()), attr="append", ctx=ast.Load()),
-                            args=[e.elt], keywords=[]))
-    body = [app]
+    if isinstance(e, ast.DictComp):
+        # {k: v for ...}: the key is evaluated before the value, then stored (a later equal key overwrites the value and
+        # keeps the position of the first)
+        body = [ast.Assign(targets=[ast.Name(id="_k", ctx=ast.Store())], value=e.key),
+                ast.Assign(targets=[ast.Name(id="_v", ctx=ast.Store())], value=e.value),
+                ast.Assign(targets=[ast.Subscript(value=ast.Name(id="_acc", ctx=ast.Load()), slice=ast.Name(id="_k", ctx=ast.Load()), ctx=ast.Store())],
+                           value=ast.Name(id="_v", ctx=ast.Load()))]
+    else:
+        app = ast.Expr(ast.Call(func=ast.Attribute(value=ast.Name(id="_acc", ctx=ast.Load()), attr="append", ctx=ast.Load()),
+                                args=[e.elt], keywords=[]))
+        body = [app]
     for c in reversed(gen.ifs):
         body = [ast.If(test=c, body=body, orelse=[])]
     loop.body = body
@@ -119,13 +127,15 @@ def as_loop(eng, e, gen, st, label):
     eng.loop_ids[id(loop)] = label
     eng._synth = getattr(eng, "_synth", []) + [loop]       # keep the node alive (ids are reused otherwise)
     s = st
-    s.env.vars["_acc"] = eng.new_list(s, z3.IntVal(0), z3.K(smt.I, VNone), "list")
+    s.env.vars["_acc"] = eng.new_dict(s) if isinstance(e, ast.DictComp) else eng.new_list(s, z3.IntVal(0), z3.K(smt.I, VNone), "list")
     outs = eng.exec_block([loop], s)
     res = []
     for o in outs:
         if o.kind != "fall":
             raise Unsupported("comprehension with non-local exit")
         acc = o.st.env.vars.pop("_acc")
+        for tmp_name in ("_k", "_v"):
+            o.st.env.vars.pop(tmp_name, None)
         res.append((acc, o.st))
     return res
 
